@@ -14,6 +14,10 @@ mod filters;
 mod sealed;
 mod vertex_info;
 
+#[cfg(feature = "verif_hooks")]
+#[doc(hidden)]
+pub mod verif_hooks;
+
 pub use candidates::{CandidateValue, Range};
 pub use dynamic::DynamicallyResolvedValue;
 pub use vertex_info::{RequiredProperty, VertexInfo};
